@@ -150,7 +150,7 @@ func verify(r *vp.Run, id, path string, st *vp.Store, ls *ipld.LinkSystem, l dat
 	}
 }
 
-var pool = []string{"a", "b c", "é", "世界", "00", ".hidden", "x y z.txt", "ü-ñ", "0A1", "README"}
+var pool = []string{"a", "b c", "é", "世界", "00", ".hidden", "x y z.txt", "ü-ñ", "0A1", "README", "caf\xe8.txt", "caf\xe9.txt", "na\xefve", "\xff\xfe"}
 
 func gen(rng *rand.Rand, depth int, salt *int64) *ent {
 	e := &ent{kind: 'd', children: map[string]*ent{}}
@@ -189,6 +189,8 @@ func TestBounded(t *testing.T) {
 			"sub dir": dir(map[string]*ent{"empty": dir(nil), "é.txt": file([]byte("hi")), "deeper": dir(map[string]*ent{"世界": file([]byte{0}), "up": link("../..")})}),
 			"zero":    file(nil), "big": file(vp.Content(600001, 1)), "dangling": link("../nowhere"), "dirlink": link("sub dir"),
 			"abs": link("/etc/passwd"), "rel": link("sub dir/é.txt"), ".dot": file([]byte("x")),
+			// names that are not valid UTF-8 (legal on Linux; os.ReadDir returns them byte for byte)
+			"caf\xe8.txt": file([]byte("e-grave")), "caf\xe9.txt": file([]byte("e-acute")), "latin1 \xfc dir": dir(map[string]*ent{"\xe4": file([]byte("a"))}),
 		}),
 		"emptyroot": dir(nil),
 		"fileroot":  file(vp.Content(1000, 2)),
